@@ -122,6 +122,7 @@ Definition field_ops (c : fcfg) : list (string * (list Z -> list Z)) :=
     ("inverse"%string, a1 (fun x => if x mod m =? 0 then 0 :: nil else 1 :: finv m x :: nil));
     ("sum.v"%string, aL (fun l => one_ (fold_left (fadd m) l 0))); ("sum.r"%string, aL (fun l => one_ (fold_left (fadd m) l 0)));
     ("product.v"%string, aL (fun l => one_ (fold_left (fmul m) l (1 mod m)))); ("product.r"%string, aL (fun l => one_ (fold_left (fmul m) l (1 mod m))));
+    ("sum.lazy"%string, aL (fun l => one_ (fold_left (fadd m) l 0))); ("product.lazy"%string, aL (fun l => one_ (fold_left (fmul m) l (1 mod m))));
     ("cmp"%string, a2 (fun x y => one_ (match Z.compare x y with Lt => -1 | Eq => 0 | Gt => 1 end)));
     ("partial_cmp"%string, a2 (fun x y => one_ (match Z.compare x y with Lt => -1 | Eq => 0 | Gt => 1 end)));
     ("eq"%string, a2 (fun x y => one_ (b2z (x =? y)))); ("ct_eq"%string, a2 (fun x y => one_ (b2z (x =? y))));
